@@ -132,3 +132,53 @@ b(["C05", "C16", "C17"], "ddm-rate-rewrite", CO + "ddm.py", "            self._e
 b(["C05", "C17"], "eddm-flip-le", CO + "eddm.py", "if self._test_statistic <= self.drift_thresh:", "if self.drift_thresh >= self._test_statistic:")
 b(["C05", "C16"], "stepd-indicator-swapped-operands", CO + "stepd.py", "classifier_result = int(y_pred == y_true)", "classifier_result = int(y_true == y_pred)")
 b(["C05", "C17"], "stepd-nested-decreased", CO + "stepd.py", "            if accuracy_decreased and self._test_p < self.alpha_drift:\n                self.drift_state = \"drift\"\n            elif accuracy_decreased and self._test_p < self.alpha_warning:\n                self.drift_state = \"warning\"\n            else:\n                self.drift_state = None\n                self._initialize_retraining_recs()", "            if accuracy_decreased and self._test_p < self.alpha_drift:\n                self.drift_state = \"drift\"\n            elif self._test_p < self.alpha_warning and accuracy_decreased:\n                self.drift_state = \"warning\"\n            else:\n                self.drift_state = None\n                self._initialize_retraining_recs()")
+
+# ---------------------------------------------------------------- C03
+AD = CD + "adwin.py"
+AA = CO + "adwin_accuracy.py"
+s("C03", "revert-fix1", AA, "            delta=delta,\n", "            delta=0.002,\n", "FWD")
+s("C03", "revert-fix1-buckets", AA, "            max_buckets=max_buckets,\n", "            max_buckets=5,\n", "FWD")
+s("C03", "revert-fix2", AA, "        y_true, y_pred = y_true[0], y_pred[0]\n        new_value = int(y_true == y_pred)", "        new_value = int(y_true == y_pred)\n        y_true, y_pred = y_true[0], y_pred[0]", "ORD")
+s("C03", "acc-indicator-ne", AA, "new_value = int(y_true == y_pred)", "new_value = int(y_true != y_pred)", "FRM")
+s("C03", "addsample-divisor", AD, "                * (new_value - self._curr_total / (self._window_size - 1))\n                / self._window_size\n", "                * (new_value - self._curr_total / (self._window_size - 1))\n                / (self._window_size - 1)\n", "FRM")
+s("C03", "merge-quarter", AD, "+ n_elements * (mean1 - mean2) * (mean1 - mean2) / 2", "+ n_elements * (mean1 - mean2) * (mean1 - mean2) / 4", "FRM")
+s("C03", "remove-plus", AD, "        self._curr_variance -= curr_bucket_row.bucket_variances[", "        self._curr_variance += curr_bucket_row.bucket_variances[", "FRM")
+s("C03", "eps-third", AD, "+ 1.0 * (2 / 3) * n_harmonic * delta_prime_den", "+ 1.0 * (1 / 3) * n_harmonic * delta_prime_den", "FRM")
+s("C03", "eps-delta-mult", AD, "                2 * log(n_elements) / self.delta\n", "                2 * log(n_elements) * self.delta\n", "FRM")
+s("C03", "eps-conservative-4-to-2", AD, "delta_prime_den = log(4 * log(n_elements) / self.delta)", "delta_prime_den = log(2 * log(n_elements) / self.delta)", "FRM")
+s("C03", "scan-drop-n1", AD, "                        n_elements0 += n_increment\n                        n_elements1 -= n_increment\n", "                        n_elements0 += n_increment\n", "PAIR")
+s("C03", "shrink-without-drift", AD, "        self._add_sample(X)\n        self._shrink_window()", "        self._add_sample(X)\n        if self._window_size > 1000:\n            self._remove_last()\n        self._shrink_window()", "PAIR")
+s("C03", "remove-total-after", AD, "        self._curr_total -= curr_bucket_row.bucket_totals[0]\n        mean_curr = curr_bucket_row.bucket_totals[0] / n_curr\n", "        mean_curr = curr_bucket_row.bucket_totals[0] / n_curr\n", "FRM")
+s("C03", "trigger-max-buckets", AD, "if curr_bucket_row.bucket_count == self.max_buckets + 1:", "if curr_bucket_row.bucket_count == self.max_buckets + 2:", "AGREE")
+s("C03", "capacity-shrunk", AD, "        self.bucket_totals = zeros(self.max_buckets + 1, dtype=float)", "        self.bucket_totals = zeros(self.max_buckets, dtype=float)", "AGREE")
+s("C03", "compress-skipped", AD, "        self._curr_total += new_value\n        self._compress_buckets()", "        self._curr_total += new_value\n        if self._window_size % 2 == 0:\n            self._compress_buckets()", "MC")
+s("C03", "remove-tail-dangling", AD, "        else:\n            self.tail.next_bucket = None\n        self.size -= 1", "        self.size -= 1", "PAIR")
+s("C03", "mean-divides-total", AD, "            out = self._curr_total / self._window_size\n", "            out = self._curr_total / self.total_samples\n", "FRM")
+s("C03", "merge-wrong-bucket", AD, "mean2 = curr_bucket_row.bucket_totals[1] / n_elements", "mean2 = curr_bucket_row.bucket_totals[2] / n_elements", "FRM")
+s("C03", "scan-pos-from-size", AD, "                list_pos = (\n                    self._bucket_row_list.size - 1\n                )", "                list_pos = (\n                    self._bucket_row_list.size\n                )", "AGREE")
+b(["C03", "C17"], "eps-reassoc", AD, "sqrt((2 * n_harmonic) * variance * delta_prime_den)", "sqrt(2 * (n_harmonic * variance) * delta_prime_den)")
+b(["C03"], "addsample-square", AD, "                * (new_value - self._curr_total / (self._window_size - 1))\n                * (new_value - self._curr_total / (self._window_size - 1))\n", "                * (new_value - self._curr_total / (self._window_size - 1)) ** 2\n")
+b(["C03"], "merge-expanded", AD, "+ n_elements * (mean1 - mean2) * (mean1 - mean2) / 2", "+ n_elements * n_elements * (mean1 - mean2) * (mean1 - mean2) / (n_elements + n_elements)")
+
+# ---------------------------------------------------------------- C06
+LF = CO + "lfr.py"
+s("C06", "unpack-order", LF, "        tn, fn, fp, tp = confusion.ravel()\n        result = dict()\n        result[\"tpr\"]", "        tn, fp, fn, tp = confusion.ravel()\n        result = dict()\n        result[\"tpr\"]", "AGREE")
+s("C06", "writer-transposed", LF, "self._confusion[y_p][y_t] += 1", "self._confusion[y_t][y_p] += 1", "AGREE")
+s("C06", "tpr-wrong-denominator", LF, 'result["tpr"] = tp / (tp + fn)', 'result["tpr"] = tp / (tp + fp)', "AGREE")
+s("C06", "stat-weights-swapped", LF, "][rate] + (1 - self.time_decay_factor) * (y_t == y_p)", "][rate] + self.time_decay_factor * (y_t == y_p)", "FRM")
+s("C06", "rj-drop-one-minus-eta", LF, "return (1 - eta) * sum(vec * bools)", "return sum(vec * bools)", "FRM")
+s("C06", "rate-changed-eq", LF, "if new_rates[rate] != old_rates[rate]:", "if new_rates[rate] == old_rates[rate]:", "FRM")
+s("C06", "lb-detect-from-warning", LF, "lb_detect = np.percentile(result_vector, q=detect_level * 100)", "lb_detect = np.percentile(result_vector, q=warning_level * 100)", ["FRM", "TNT-wiring"])
+s("C06", "ub-detect-lower-level", LF, "ub_detect = np.percentile(result_vector, q=100 - (detect_level * 100))", "ub_detect = np.percentile(result_vector, q=detect_level * 100)", ["FRM", "TNT-wiring"])
+s("C06", "all-rates-loop", LF, "            for rate in self.rates_tracked:\n                _calculate_rate_bounds(rate)", "            for rate in [\"tpr\", \"tnr\", \"ppv\", \"npv\"]:\n                _calculate_rate_bounds(rate)", "TNT-untracked")
+s("C06", "reset-zero-confusion", LF, "        self._confusion = np.array([[1, 1], [1, 1]])  # C at a given time point", "        self._confusion = np.array([[0, 0], [0, 0]])  # C at a given time point", "AGREE")
+s("C06", "denominator-mismatch", LF, 'result["ppv_N"] = fp + tp', 'result["ppv_N"] = fn + tp', "AGREE-denom")
+s("C06", "cache-key-drops-denominator", LF, "            if r_curr_denom in denom_dict:\n                bound_dict = denom_dict[r_curr_denom]", "            if len(denom_dict) > 0:\n                bound_dict = list(denom_dict.values())[0]", "AGREE-cache")
+s("C06", "alarm-uses-warn-bounds", LF, "                    new_r_stat < lb_detect\n                ) | (new_r_stat > ub_detect)", "                    new_r_stat < lb_warn\n                ) | (new_r_stat > ub_detect)", "TNT-wiring")
+s("C06", "cache-key-raw-rate", LF, "                    est_rate, curr_denom, r_est_rate, r_curr_denom\n                )", "                    est_rate, curr_denom, r_est_rate, r_est_rate\n                )", "AGREE-cache")
+s("C06", "binomial-size-one", LF, "bools = np.random.binomial(n=1, p=est_rate, size=denom)", "bools = np.random.binomial(n=1, p=est_rate, size=1)", "FRM")
+s("C06", "exps-off-by-one", LF, "exps = [denom - i for i in range(1, denom + 1)]", "exps = [denom - i for i in range(denom)]", "FRM")
+s("C06", "stat-index-prev", LF, "            self._r_stat[self.samples_since_reset][rate] = new_r_stat", "            self._r_stat[self.samples_since_reset - 1][rate] = new_r_stat", "IDX")
+b(["C06"], "rates-reordered", LF, '        result["tpr"] = tp / (tp + fn)\n        result["tnr"] = tn / (tn + fp)', '        result["tnr"] = tn / (fp + tn)\n        result["tpr"] = tp / (fn + tp)')
+b(["C06", "C16"], "writer-temp", LF, "self._confusion[y_p][y_t] += 1", "row = y_p\n        self._confusion[row][y_t] += 1")
+b(["C06", "C17"], "percentile-rewrite", LF, "q=100 - (warning_level * 100))", "q=100 * (1 - warning_level))")
